@@ -29,7 +29,12 @@ PROP = {'gen': [],
                'indexing, nearest) plugged in (C05_nopanic_with_reduction; f32 evaluation itself is not modelled and is covered by the '
                'exhaustive c20sweep run, which reports encoder panics). DEC mode numbers, KEYBOARD_LEVEL and '
                'grey-depth SGR codes are regenerated from the source each run and the theorems re-checked; the model is tied to the '
-               'code by a differential run (single commands and streams through one encoder object).',
+               'code by a differential run (single commands, and streams through ONE encoder object with deliberate repetitions of stateful '
+               'commands around Reset / alt-screen / keyboard-level / mode / face changes; for streams the FINAL TERMINAL STATE from clean and '
+               'dirty initial states is compared, C05_stream_one_encoder: one encoder object = concatenation of self-contained encodings). Composition with C01 (true colour): the bytes of every '
+               'renderer command, read by this interpreter and run on C01\'s reference screen, do exactly what the command does there '
+               '(C05_C01_bytes/_list/_history_bytes), hence after every history ending in a frame the screen reached through the BYTES '
+               'displays show(S) (C05_C01_history_final, corollary of C01); renderer sessions are checked this way end to end.',
  'level_note': 'Trusted: Coq kernel + vm_compute; translate/enc_tables.py; hand-written model Encoder/Encode.v validated by the '
                'correspondence run; the VT/xterm interpreter Encoder/VT.v and the denotation Encoder/Denote.v ARE the specification '
                '(written from ECMA-48, the DEC parser state machine, xterm ctlseqs, the kitty keyboard protocol). Palette index / grey '
@@ -48,6 +53,8 @@ PROP = {'gen': [],
                   'correspondence run',
                   'specification: Encoder/VT.v (UTF-8 decoder per Unicode Table 3-7, DEC/ECMA-48 parser state machine, xterm/kitty '
                   'interpretation of CSI/OSC/DCS/ESC, SGR as a transformer of renditions) and Encoder/Denote.v (meaning of each command)',
+                  'composition with C01: Render/Screen.v cell-writing primitives (put_char, erase_cells), its oracle (wcwidth, look of '
+                  'blank / erased cells) and image placement model are shared assumptions; face ids and Face values correspond one to one',
                   HARNESS],
  'assumptions': ['terminal in UTF-8 mode (C1 controls recognised as decoded code points); a zero or omitted numeric parameter of '
                  'cursor/erase/scroll functions means 1 (xterm); SGR 22 = normal intensity, 21 = double underline (ECMA-48)',
